@@ -23,6 +23,8 @@ from sa.pyfront import Program
 from sa.symex import Interp
 
 RULES = {
+    "R-C03-v": "index-cube fill closures write every region of the presented cell unconditionally (no data-dependent skip): a skipped cell's rows stay in the margin and marginal differencing charges them to the common cell",
+    "R-C03-u": "the index cube's walk presents every non-empty uncommon and marginal combination exactly once, for every cube (imported from the C14 schema analysis): what it skips the array cube and a direct group-by still count",
     "R-C03-t": "the index cube's cells at a common category are exactly margin - sum(uncommon cells), unclamped and for every region alike (imported from C02 R-C02-e): that is what the array cube and a direct group-by compute there",
     "R-C03-s": "the input-format helper as_separate_validity (summarised by every aggregate rule) keeps its contract: a (values, validity) pair is passed through; a single array gets validity = ~isnan(array) for every dtype with a missing marker (all float widths; C03 quantifies over integer and float facts only) - a dtype shortcut to all-True is accepted only for marker-free kinds",
     "R-C03-p": "the index-cube fill closures come in a traced and an untraced variant (timing diagnostics): both store the same cell values",
@@ -446,6 +448,22 @@ def main(tier):
         rep.add("R-C03-t", o.where, "[%s] %s" % (o.rule, o.construct), o.status, o.detail, True,
                 o.witness if o.status != "VIOLATED" else dict(o.witness or {}, history="ccube.sum over facts with negative values vs xcube.sum: the cell at the common category differs"))
     rep.floor("R-C03-t", 3, len(sub2.obls))
+    CE = AT.Collector()
+    ne = AT.rule_every_cell_written(prog, CE, "R-C03-v")
+    for rule, status, where, cons, detail, wit in CE.items:
+        rep.add(rule, where, cons, status, detail, True, wit)
+    rep.floor("R-C03-v", 20, ne)
+    # R-C03-u: the index cube's visited cells are laid down by the walk: every non-empty uncommon and marginal combination
+    # exactly once, for every cube (C14's schema analysis, as in R-C02-f / R-C05-h) - the array cube and a group-by
+    # have no such step to get wrong
+    import c14
+    sub14 = core.Report("C14", level="other", rules=c14.RULES, tier=tier)
+    c14.analyse(prog, sub14)
+    c14.walk_rules(prog, sub14)
+    for o in sub14.obls:
+        rep.add("R-C03-u", o.where, "[%s] %s" % (o.rule, o.construct), o.status, o.detail, True,
+                o.witness if o.status != "VIOLATED" else dict(o.witness or {}, history="ccube.count vs xcube.count on the same data: cells the walk does not present come out missing / are charged to the common cell"))
+    rep.floor("R-C03-u", 30, len(sub14.obls))
     return rep.finish()
 
 
